@@ -67,4 +67,35 @@ theorem c19_path_types_typed_present :
     pathElementSites.any (fun s => s.2.2.2 == "string") = true ∧ pathElementSites.any (fun s => s.2.2.2 == "int") = true := by
   decide
 
+/-! ## every way a path is built is one the translator understands (round 4c)
+
+`pathSinks` is type-driven (harness/cmd/c19/pathsinks.go): every expression written to a `Path []any`
+field, or to a variable / parameter / field / function result that flows into one, with its SHAPE.
+A path built in a way the translator does not understand is a row `unrecognised` — the theorem below
+stops checking, the tie is broken — instead of being silently absent from `pathElementSites`
+(audit B, LOW: the first translator matched append / literal / index shapes under path-like names only;
+this enumeration found `slices.Concat(p.path, issue.Path)` in core/context.go and the string elements
+of internal/checks/factory.go:resolvePath that way). -/
+
+def knownShapes : List String :=
+  ["nil", "literal", "append", "make", "reslice", "convert", "clone", "concat", "copy", "forward", "call"]
+
+/-- **no path is built in a way the translator does not understand** -/
+theorem c19_path_sinks_recognised :
+    pathSinks.all (fun s => s.2.1 != "unrecognised" && knownShapes.contains s.2.1) = true := by decide
+
+/-- the shapes that ADD elements have their elements in `pathElementSites` (same file:function), unless the
+    literal is the empty path -/
+theorem c19_path_sinks_elements_recorded :
+    pathSinks.all (fun s =>
+      !(s.2.1 == "literal" || s.2.1 == "append" || s.2.1 == "concat") || s.2.2 == "[]any{}" ||
+        pathElementSites.any (fun e => e.1 == s.1)) = true := by decide
+
+/-- the table is not vacuous: the payload's own path (`PushPath`), issue creation and the containers are there -/
+theorem c19_path_sinks_nonvacuous :
+    40 ≤ pathSinks.length ∧
+    pathSinks.any (fun s => s.1 == "core/context.go:PushPath" && s.2.1 == "append") = true ∧
+    pathSinks.any (fun s => s.2.1 == "literal") = true ∧
+    pathSinks.any (fun s => s.1 == "internal/issues/finalize.go:FinalizeIssue") = true := by decide
+
 end Gozod.C19
